@@ -328,7 +328,16 @@ def main(out_path: str):
     parts += c18_tables()
     parts += [list_s("selectQuestionFields", question.SELECT_QUESTION_FIELDS), list_s("optionFields", question.OPTION_FIELDS)]  # C08: header_columns of the survey / choices sheets
     parts.append("end Pyxv.Gen\n")
-    Path(out_path).write_text("\n\n".join(parts))
+    # several slices may ask for the same table: keep the first definition of each name
+    seen, uniq = set(), []
+    for part in parts:
+        names = re.findall(r"^def (\w+)", part, re.M)
+        if len(names) == 1:
+            if names[0] in seen:
+                continue
+            seen.add(names[0])
+        uniq.append(part)
+    Path(out_path).write_text("\n\n".join(uniq))
 
 
 if __name__ == "__main__":
